@@ -304,22 +304,30 @@ BLANKS = (" \t\n\r\x0b\x0c\x1c\x1d\x1e\x1f\x85\xa0\u1680\u2000\u2001\u2002\u2003
           "\u2028\u2029\u202f\u205f\u3000\ufeff\u200b")
 
 
-def near_relations(a, b):
-    """Ways in which two DIFFERENT printed lines are nearly the same text (for the monitors; the statement's rule is
-    plain: different lines = unequal features)."""
+def near_keys(line):
+    """The line under the transformations that define the near relations (computed once per line)."""
     import unicodedata
 
+    r = line.rstrip(BLANKS)
+    return (r, line.rstrip("\t"), r.lstrip(BLANKS), line.casefold(), unicodedata.normalize("NFC", line))
+
+
+def near_relations(a, b, ka=None, kb=None):
+    """Ways in which two DIFFERENT printed lines are nearly the same text (for the monitors; the statement's rule is
+    plain: different lines = unequal features)."""
     out = []
     if a == b:
         return out
-    if a.rstrip(BLANKS) == b.rstrip(BLANKS):
+    ka = ka or near_keys(a)
+    kb = kb or near_keys(b)
+    if ka[0] == kb[0]:
         out.append("trailing whitespace-like characters")
-        if a.rstrip("\t") == b.rstrip("\t"):
+        if ka[1] == kb[1]:
             out.append("an empty trailing column")
-    elif a.strip(BLANKS) == b.strip(BLANKS):
+    elif ka[2] == kb[2]:
         out.append("leading whitespace-like characters")
-    if a.casefold() == b.casefold() or a.lower() == b.lower():
+    if ka[3] == kb[3]:
         out.append("letter case")
-    if unicodedata.normalize("NFC", a) == unicodedata.normalize("NFC", b):
+    if ka[4] == kb[4]:
         out.append("Unicode normalisation form")
     return out
